@@ -664,9 +664,11 @@ impl Scenario for C20Lib {
         // drop assignments
         for mi in 0..p.set.modules.len() {
             for ai in (0..p.set.modules[mi].assigns.len()).rev() {
-                let mut q = p.clone();
-                q.set.modules[mi].assigns.remove(ai);
-                push(q, &mut out);
+                if let Some(s2) = p.set.without_assign(mi, ai) {
+                    let mut q = p.clone();
+                    q.set = s2;
+                    push(q, &mut out);
+                }
             }
         }
         // simpler knobs
